@@ -46,8 +46,11 @@ PROPS = {
                 mc=["core1", "stopcount"], inv=[], step=["Step_C14"]),
 }
 
+ALLFAM = ["core1", "tandem", "prio", "preempt", "cls", "clsren", "renege", "route", "sched", "schedpre", "schedblock",
+          "slot", "ccw", "trk", "reroute", "stopcount"]
+
 TIERS = {
-    "quick": dict(traces=160, max_events=60, mc_timeout=240, batch=10),
+    "quick": dict(traces=320, max_events=60, mc_timeout=240, batch=10),
     "thorough": dict(traces=3000, max_events=200, mc_timeout=1500, batch=40),
 }
 
@@ -185,10 +188,13 @@ def run_check(prop, tier, seed):
         return 2
     # ---- 2. code -> spec: traces of the real engine
     fams = P["fam"]
+    others = [f for f in ALLFAM if f not in fams] or fams
     n = T["traces"]
     jobs = []
     for j in range(n):
-        fam = fams[j % len(fams)]
+        # half of the budget on the property's home families, half on every other family (R3: the monitors
+        # themselves guard on the property's domain, so out-of-domain scenarios are simply not judged)
+        fam = fams[(j // 2) % len(fams)] if j % 2 == 0 else others[(j // 2) % len(others)]
         jobs.append((fam, seed * 100000 + j, T["max_events"], 0.1 if j % 5 == 0 else 0.0))
     res = generate_traces(jobs)
     traces, skipped = [], []
